@@ -243,6 +243,63 @@ Definition write_at (tl : N) (st : cstate) (off : Z) (b : runs) : (N * N) * csta
       ((writePos + cp, E_OK), set_tracts st1 T2 end_)
     else ((writePos, E_OK), st1).
 
+(* ---------- writeAt under per-replica tractserver write faults ---------- *)
+(* fl = list of (tract index, code), code = 100 * kind + replica slot; kind 1 = that replica's tractserver fails
+   the write for the whole call, kind 3 = only during the first execution of writeExistingTracts (the create paths
+   run once). The client keeps one result slot per (tract, replica), tract-major, and
+   "the write only succeeds if every tract write succeeded": the FIRST non-OK slot of the WHOLE array is returned. *)
+Definition wfault_hit (fl : list (N * N)) (attempt t r : N) : bool :=
+  existsb (fun x => (fst x =? t) && (snd x mod 100 =? r) &&
+                    ((snd x / 100 =? 1) || ((snd x / 100 =? 3) && (attempt =? 0)))) fl.
+
+Definition slot_results (fl : list (N * N)) (attempt repl first cnt : N) : list N :=
+  flat_map (fun t => map (fun r => if wfault_hit fl attempt t r then E_FAULT else E_OK) (range 0 repl))
+           (range first cnt).
+
+Fixpoint scan_slots (rs : list N) : N :=
+  match rs with
+  | [] => E_OK
+  | e :: r => if e =? E_OK then scan_slots r else e
+  end.
+
+(* writeAt with faults armed. The model keeps ONE copy per tract, so it represents only states in which all replicas
+   agree: a failed writeExistingTracts (after which replicas may differ inside the written range) leaves the model's
+   tracts unchanged, and the harness re-issues the same write without faults before any other operation.
+   - writeExistingTracts: a failing slot with tractsWereCached invalidates the cache entry and runs the whole
+     function again (fresh GetTracts); a second failure (or an uncached first one) returns (0, err).
+   - createEmptyTracts / createWriteTracts run once; on failure nothing is acknowledged to the curator and writeAt
+     returns (writePos, err): the part written to existing tracts stays, hole tracts already acknowledged stay. *)
+Definition write_at_f (tl repl : N) (fl : list (N * N)) (st : cstate) (off : Z) (b : runs) : (N * N) * cstate :=
+  if (off <? 0)%Z then ((0, E_INVAL), st)
+  else if rlen b =? 0 then ((0, E_OK), st)
+  else
+    let o := Z.to_N off in
+    let start := o / tl in
+    let end_ := (o + rlen b + tl - 1) / tl in
+    let n := ntr st in
+    let create_part (s : cstate) : (N * N) * cstate :=
+      if (n <? end_) && negb (scan_slots (slot_results fl 0 repl n (end_ - n)) =? E_OK) then
+        if start <? n then
+          (* the part in existing tracts was written, the new tracts failed *)
+          let '((wp, _), s') := write_at tl s off (rtake (n * tl - o) b) in ((wp, E_FAULT), s')
+        else if negb (scan_slots (slot_results fl 0 repl n (start - n)) =? E_OK) then ((0, E_FAULT), s)
+        else ((0, E_FAULT),
+              set_tracts s (create_empty (N.to_nat (start - n)) n (tracts s)) (N.max n start))
+      else write_at tl s off b in
+    if start <? n then
+      let e := N.min end_ n in
+      if negb (scan_slots (slot_results fl 0 repl start (e - start)) =? E_OK) then
+        let '(_, stg) := get_tracts st start e in
+        if rpcs stg =? rpcs st then
+          (* tractsWereCached: invalidate, run writeExistingTracts again *)
+          let st1 := drop_cache stg in
+          if negb (scan_slots (slot_results fl 1 repl start (e - start)) =? E_OK)
+          then let '(_, st2) := get_tracts st1 start e in ((0, E_FAULT), st2)
+          else create_part st1
+        else ((0, E_FAULT), stg)
+      else create_part st
+    else create_part st.
+
 (* ---------- byteLength ---------- *)
 Definition byte_length (tl : N) (st : cstate) : N * cstate :=
   let n := ntr st in
@@ -321,6 +378,8 @@ Inductive op :=
 | OCache (on : bool)
 | OReadAtF (off : Z) (k : N) (fl : list (N * N))   (* ReadAt while the listed tractserver read faults are armed *)
 | OReadF (k : N) (fl : list (N * N))               (* Read under faults *)
+| OWriteAtF (repl : N) (off : Z) (d : runs) (fl : list (N * N))  (* WriteAt while per-replica write faults are armed *)
+| ODropCache         (* tractCache.invalidate(blob): the harness does this when the blob's tracts move to RS storage *)
 | OReopen            (* Client.Open: a fresh Blob (offset 0) and a fresh ReadaheadBlob on it *)
 | ORaNew.            (* NewReadaheadBlob on the current Blob *)
 
@@ -349,6 +408,8 @@ Definition step (v : variant) (tl : N) (st : cstate) (o : op) : res * cstate :=
   | ORaLen => let '(l, st1) := byte_length tl st in mk st1 (Z.of_N l) E_OK []
   | OReadAtF off k fl => let '((n, e, d), st1) := read_at_f v tl fl st off k in mk st1 (Z.of_N n) e d
   | OReadF k fl => let '((n, e, d), st1) := blob_read_f v tl fl st k in mk st1 (Z.of_N n) e d
+  | OWriteAtF repl off d fl => let '((n, e), st1) := write_at_f tl repl fl st off d in mk st1 (Z.of_N n) e []
+  | ODropCache => mk (drop_cache st) 0%Z E_OK []
   | OCache on => mk (set_cache_on st on) 0%Z E_OK []
   | OReopen =>
       (* openOnce: an uncached curators.GetTracts(0,0) (one RPC); tractCache.put of no tracts *)
@@ -429,7 +490,7 @@ Fixpoint srun (tl : N) (f : sfile) (ops : list op) : list sres :=
   end.
 
 Definition direct_op (o : op) : bool :=
-  match o with ORaRead _ | ORaSeek _ _ | ORaLen | OReadAtF _ _ _ | OReadF _ _ => false | _ => true end.
+  match o with ORaRead _ | ORaSeek _ _ | ORaLen | OReadAtF _ _ _ | OReadF _ _ | OWriteAtF _ _ _ _ | ODropCache => false | _ => true end.
 
 (* ---------- wire format ---------- *)
 (* ops:  0 fix16 fix17 cacheOn [fix17b]   (first line of a case: which code variant, initial cache flag)
@@ -446,7 +507,9 @@ Definition direct_op (o : op) : bool :=
          11                                Reopen         < 0 rpcs
          12                                NewReadahead   < 0
          13 off k nf (tract kind)...       ReadAt with read faults armed   < as 2
-         14 k nf (tract kind)...           Read with read faults armed     < as 4              *)
+         14 k nf (tract kind)...           Read with read faults armed     < as 4
+         15 repl off nruns (len val)... nf (tract code)...   WriteAt with write faults armed   < as 1
+         16                                drop the blob's tract cache entry < 0                *)
 Fixpoint dec_pairs (n : nat) (l : list Z) : option runs :=
   match n with
   | O => match l with [] => Some [] | _ => None end
@@ -456,6 +519,17 @@ Fixpoint dec_pairs (n : nat) (l : list Z) : option runs :=
                              | None => None end
             | _ => None end
   end.
+(* n pairs, then whatever follows *)
+Fixpoint dec_pairs_rest (n : nat) (l : list Z) : option (runs * list Z) :=
+  match n with
+  | O => Some ([], l)
+  | S n' => match l with
+            | a :: b :: r => match dec_pairs_rest n' r with
+                             | Some (p, rest) => Some ((Z.to_N a, Z.to_N b) :: p, rest)
+                             | None => None end
+            | _ => None end
+  end.
+
 Definition dec_runs (l : list Z) : option runs :=
   match l with
   | n :: r => if (n <? 0)%Z then None else dec_pairs (Z.to_nat n) r
@@ -478,6 +552,14 @@ Definition dec_op (l : list Z) : option op :=
   | [12%Z] => Some ORaNew
   | 13%Z :: off :: k :: r => if (k <? 0)%Z then None else
       match dec_runs r with Some fl => Some (OReadAtF off (Z.to_N k) fl) | None => None end
+  | 15%Z :: repl :: off :: nr :: r =>
+      if (nr <? 0)%Z || (repl <? 0)%Z then None else
+      match dec_pairs_rest (Z.to_nat nr) r with
+      | Some (d, rest) => match dec_runs rest with
+                          | Some fl => Some (OWriteAtF (Z.to_N repl) off d fl)
+                          | None => None end
+      | None => None end
+  | [16%Z] => Some ODropCache
   | 14%Z :: k :: r => if (k <? 0)%Z then None else
       match dec_runs r with Some fl => Some (OReadF (Z.to_N k) fl) | None => None end
   | _ => None
@@ -493,7 +575,7 @@ Definition enc_res (o : op) (x : res) : list Z :=
   | OReadAt _ _ | ORead _ | OReadAtF _ _ _ | OReadF _ _ => hdr ++ enc_runs (r_data x)
   | ORaRead _ => [r_n x; Z.of_N (r_err x); r_pos x; Z.of_N (r_buf x); Z.of_N (r_rpc x)] ++ enc_runs (r_data x)
   | ORaSeek _ _ => [r_n x; Z.of_N (r_err x); r_pos x; Z.of_N (r_buf x); Z.of_N (r_rpc x)]
-  | OCache _ | ORaNew => [0%Z]
+  | OCache _ | ORaNew | ODropCache => [0%Z]
   | OReopen => [0%Z; Z.of_N (r_rpc x)]
   | _ => hdr
   end.
